@@ -286,6 +286,47 @@ def run(ctx, R, tier):
     decode_rules(F, R)
     # ---- mirror, gates, unload
     sound_rules(F, R)
+    drain_rule(F, R)
+
+
+def drain_rule(F, R):
+    """"Every finite non-looping sound reaches Stopped": a static sound is marked as stopped when its transport has
+    stopped AND the resampler has run empty, and the resampler runs empty only when it is fed `None`.  So whatever is
+    pushed into the resampler must be `None` whenever the transport is not playing: the pushed Option is
+    `transport.playing.then(..)` (or is built under a test of `transport.playing` whose false side yields None).  A push of
+    `frame_at_index(..)` alone keeps feeding `Some(frame 0)` to a reversed sound parked at position 0, for ever."""
+    from ..paths import parse_term
+    n = 0
+    for b in F.bodies:
+        if b.krate != 'kira' or not b.path.startswith('sound::static_sound::sound::StaticSound::'):
+            continue
+        for bb, t in b.calls():
+            if (callee_path(t) or '') != 'sound::static_sound::sound::resampler::Resampler::push_frame':
+                continue
+            n += 1
+            d = describe(b, t['args'][1], depth=6, at=bb)
+            name, args = parse_term(d)
+            ok = name in ('core::bool::<impl bool>::then', 'core::bool::<impl bool>::then_some') and args \
+                and args[0].endswith('transport.playing')
+            if not ok:
+                # explicit branch: the push is dominated by a test of transport.playing, and on its false side the value is None
+                gates = [g for g in range(b.n) if b.blocks[g]['term']['k'] == 'switch' and b.dominates(g, bb)
+                         and describe(b, b.blocks[g]['term']['op'], depth=3, at=g).endswith('transport.playing')]
+                ok = bool(gates) and ('None' in d or 'multi(' in d)
+                if ok:
+                    ok = any(str(p.env.get(('d', op_local_(t['args'][1])), '')).endswith('None')
+                             for p in explore(b) if bb in p.blocks
+                             and any(dsc.endswith('transport.playing') and bool_label(l) is False for _, dsc, l in p.decisions))
+            R.check(ok, 'B.C03.drain', b.path.split('::')[-1],
+                    '%s pushes %s into the resampler: not None when the transport has stopped, so the resampler never runs empty and a '
+                    'sound whose transport stops at a valid index (reverse playback reaching 0) never becomes Stopped' % (b.path, d[:100]),
+                    detail={'pushed': d[:120]}, where=b.where(bb))
+    R.floor('B.C03.drain', n, 1)
+
+
+def op_local_(op):
+    from ..facts import op_local
+    return op_local(op)
 
 
 def table_of(body):
